@@ -67,6 +67,8 @@ def x_cell_lookup(x: int, y: int, z: int) -> bool:
             env = Env.LineWorld(Model(logger=NULL_LOGGER), w)
         elif cls == 'grid':
             env = Env.GridWorld(Model(logger=NULL_LOGGER), w, h)
+        elif hx.P.get('wrap'):
+            env = Env.DiscreteWorld(Model(logger=NULL_LOGGER), w, h, d, wrap_env=True)   # toroidal for MOVES; lookups are bounded all the same
         else:
             env = Env.DiscreteWorld(Model(logger=NULL_LOGGER), w, h, d)
         # a second world of ANOTHER shape, created later in the same process under the same (default) id
@@ -155,6 +157,14 @@ def rows_follow_components(x: int, y: int, v0: int, v1: int) -> bool:
         if sorted(r3.keys()) != ["pos", "soil"] or r3["soil"] != v1 - i:
             return hx.end(hx.fail("row of a cell after a component was generated again under the same name",
                                   labels=list(r3.keys()), expected_soil=v1 - i))
+        # the world's own coordinate column is not a component: raw data offered under its name is refused, the table stays
+        try:
+            a.add_cell_component("pos", [k for k in range(n)])
+            return hx.end(hx.fail("raw data was accepted as a cell component called 'pos'", pos_now=list(a.cells['pos'])[:3]))
+        except ValueError:
+            pass
+        if tuple(a.get_cell(cx, cy, 0)["pos"]) != (cx, cy, 0):
+            return hx.end(hx.fail("the position table changed"))
         # ... and a re-generation that is REJECTED (wrong length) leaves the row as it was
         try:
             a.add_cell_component("soil", [0] * (n + 1))
@@ -206,7 +216,7 @@ def obligations(tier):
           labels=("looked_up_twice",), timeout=600, encoded=enc[1:] + (Env.DiscreteWorld.add_cell_component, Env.DiscreteWorld.remove_cell_component)),
         X("id_alias", id_alias, labels=("called",), timeout=300, encoded=(Env.discreteGridPosToID,)),
         X("x_cell_lookup", x_cell_lookup, parts=[{"shape": s} for s in shapes] + [{"shape": [2, 2, 0], "alias": True}] +
-          [{"shape": [2, 3, 2], "numpy_coords": True}, {"shape": [3, 0, 0], "cls": "line", "numpy_coords": True}, {"shape": [3, 0, 0], "cls": "line"}, {"shape": [1, 0, 0], "cls": "line"}, {"shape": [2, 3, 0], "cls": "grid"}, {"shape": [3, 1, 0], "cls": "grid"}],
+          [{"shape": [2, 2, 0], "wrap": True}, {"shape": [3, 1, 2], "wrap": True}, {"shape": [2, 3, 2], "numpy_coords": True}, {"shape": [3, 0, 0], "cls": "line", "numpy_coords": True}, {"shape": [3, 0, 0], "cls": "line"}, {"shape": [1, 0, 0], "cls": "line"}, {"shape": [2, 3, 0], "cls": "grid"}, {"shape": [3, 1, 0], "cls": "grid"}],
           labels=("inside", "outside"), timeout=300,
           group=4, encoded=enc[:2], bounds={"extents": "0..%d" % M, "coordinates": "all ints"}),
     ]
